@@ -149,3 +149,59 @@ package trace
 //
 // tsTable.TakeFileSnapshot of the trace engine ranges over a map of secondary indexes (maps are not modelled): not under contract.
 //
+//
+//@ section C13 C03
+//
+// mergeParts, the loop that aggregates the time range of the merged part (fragment contract: this loop only, from an
+// arbitrary state). The merged part's [min, max] must cover the range of every input part: the outside-fragment guard of
+// a later sampling merge and the query-time part pruning both skip a part whose advertised range misses the query.
+//@ func tsTable.mergeParts#time-range
+//@   mode int
+//@   opt fragment writes maxTimestamp
+//@   requires forall k :: 0 <= k && k < len(parts) ==> parts[k] != nil && parts[k].p != nil
+//@   ensures  covers-every-input: forall k :: 0 <= k && k < len(parts) ==> minTimestamp <= parts[k].p.partMetadata.MinTimestamp && parts[k].p.partMetadata.MaxTimestamp <= maxTimestamp
+//@   loop 0 invariant forall k :: 0 <= k && k < range_i ==> minTimestamp <= parts[k].p.partMetadata.MinTimestamp && parts[k].p.partMetadata.MaxTimestamp <= maxTimestamp
+//
+//@ section C04
+//
+// loadSnapshot, the manifest lookup (fragment contract: this loop only, from an arbitrary state). A part directory found on
+// disk is treated as an orphan - and deleted - only when NO entry of the manifest names it; the manifest is not assumed
+// to be sorted (a merge racing a flush publishes ids out of order).
+//@ func tsTable.loadSnapshot#manifest-lookup
+//@   mode int
+//@   opt fragment writes find
+//@   requires !find
+//@   ensures  orphan-only-if-unlisted: !find ==> (forall k :: 0 <= k && k < len(parts) ==> parts[k] != id)
+//@   ensures  found-only-if-listed: find ==> (exists k :: 0 <= k && k < len(parts) && parts[k] == id)
+//@   loop 0 invariant !find && (forall k :: 0 <= k && k < range_i ==> parts[k] != id)
+//@ section C03
+//
+// getPartsToMergeUpTo, the loop that builds the set of part ids the merge will remove from the snapshot (fragment contract: this
+// loop only, from an arbitrary state with an empty set). The set is exactly the ids of the parts the policy chose: a part
+// that is not merged into the output must never be listed, or its data vanishes from queries when the merged part is introduced.
+//@ func tsTable.getPartsToMergeUpTo#removed-set
+//@   mode int
+//@   opt fragment writes toBeMerged
+//@   requires toBeMerged != nil && (forall id uint64 :: !haskey(toBeMerged, id))
+//@   requires forall k :: 0 <= k && k < len(dst) ==> dst[k] != nil && dst[k].p != nil
+//@   ensures  every-chosen-part-is-listed: forall k :: 0 <= k && k < len(dst) ==> haskey(toBeMerged, dst[k].p.partMetadata.ID)
+//@   ensures  only-chosen-parts-are-listed: forall id uint64 :: haskey(toBeMerged, id) ==> (exists k :: 0 <= k && k < len(dst) && dst[k].p.partMetadata.ID == id)
+//@   loop 0 invariant toBeMerged != nil && (forall k :: 0 <= k && k < range_i ==> haskey(toBeMerged, dst[k].p.partMetadata.ID))
+//@   loop 0 invariant forall id uint64 :: haskey(toBeMerged, id) ==> (exists k :: 0 <= k && k < range_i && dst[k].p.partMetadata.ID == id)
+//
+// renameConflictTags: each tag whose type conflicts between the merged parts gets its typed name, every other tag keeps
+// its name - merging parts whose tag types disagree renames and never mixes or drops a tag column.
+//@ decl func typedName(name string, vt byte) string
+//@ func encodeTypedTag
+//@   assumed name + separator + type suffix; only "a function of (name, type)" is used
+//@   pure
+//@   ensures result == typedName(name, byte(vt))
+//@ func renameConflictTags
+//@   mode int
+//@   requires b != nil
+//@   modifies allof(tag.name)
+//@   ensures  renamed-exactly-the-conflicting: forall i :: 0 <= i && i < len(b.tags) ==>
+//@     b.tags[i].name == ite(len(conflictTags) != 0 && haskey(conflictTags, old(b.tags[i].name)), typedName(old(b.tags[i].name), byte(b.tags[i].valueType)), old(b.tags[i].name))
+//@   loop 0 invariant len(conflictTags) != 0
+//@   loop 0 invariant done: forall k :: 0 <= k && k < range_i ==> b.tags[k].name == ite(haskey(conflictTags, old(b.tags[k].name)), typedName(old(b.tags[k].name), byte(b.tags[k].valueType)), old(b.tags[k].name))
+//@   loop 0 invariant todo: forall k :: range_i <= k && k < len(b.tags) ==> b.tags[k].name == old(b.tags[k].name)
